@@ -202,5 +202,13 @@ PROPS['C17'] = dict(
          U('skbl_full_n4k2_kf', 'C17_skbl.cpp', ['VP_N=4', 'VP_K=2', 'VP_START_FULL', 'VP_KF_STAR'], weight=4, must_reach=[], kf='C17-remove-star-sub-blocker'),
          U('skbl_n4k4', 'C17_skbl.cpp', ['VP_N=4', 'VP_K=4'], tiers=['thorough'], weight=30, must_reach=_t17), U('skbl_full_n5k2', 'C17_skbl.cpp', ['VP_N=5', 'VP_K=2', 'VP_START_FULL'], tiers=['thorough'], weight=30, must_reach=['end', 'remove_star'])])
 
+# ------------------------------------------------------------------------------------------------ C20
+PROPS['C20'] = dict(
+  explanation='Bounded symbolic execution of the real Permutahedral_representation iterators (vertices, faces, facets, cofaces, cofacets, is_face_of) and of Freudenthal_triangulation::locate_point / barycenter (clang IR of the headers in /repo, Eigen included): the base vertex is symbolic, the ordered set partition ranges over the generated list of all ordered partitions of {0..d} (forked by the solver), the query point over a quarter-integer grid; the face lattice clauses are asserted as vertex-set statements and point location by the exact rational characterisation of the relative interior.',
+  bounds=dict(quick='d=2 (13 ordered partitions) and d=3 (75): all simplices around a symbolic base vertex in [-1,1]^d; is_face_of against a second symbolic simplex (d=2); point location on the grid {-1,-3/4,..,1}^d for d=2,3', thorough='d=4 (541 partitions) for the face lattice; point location d=4'),
+  outside=['Coxeter_triangulation and general affine maps (point location goes through Eigen ColPivHouseholderQR::solve on symbolic data)', 'query points off the quarter-integer grid', 'ambient dimension above 4'],
+  units=[U('perm_d2', 'C20_coxeter.cpp', ['VP_D=2'], weight=5), U('perm_d3', 'C20_coxeter.cpp', ['VP_D=3', 'VP_NO_SECOND'], weight=10), U('locate_d2', 'C20_coxeter.cpp', ['VP_D=2', 'VP_LOCATE'], weight=4), U('locate_d3', 'C20_coxeter.cpp', ['VP_D=3', 'VP_LOCATE'], weight=8),
+         U('perm_d4', 'C20_coxeter.cpp', ['VP_D=4', 'VP_NO_SECOND'], tiers=['thorough'], weight=40), U('locate_d4', 'C20_coxeter.cpp', ['VP_D=4', 'VP_LOCATE'], tiers=['thorough'], weight=30)])
+
 NOT_APPLICABLE = {}
 NOTES = 'Clauses outside every claim: real thread schedules/TBB execution (engine is sequential), iostream text I/O, GMP arbitrary precision, Eigen-based Coxeter point location under general affine maps, SIMD paths of boost::unordered_flat_map (compiled with -U__SSE2__), allocation failure, inputs beyond the stated bounds.'
